@@ -47,7 +47,11 @@ class Watch:
         self.dbdir = os.path.dirname(s.path)
 
     def snap(self):
-        return {"file": digest(self.s.path), "tmp": listing(self.tmp), "dbdir": listing(self.dbdir)}
+        d = {"file": digest(self.s.path), "tmp": listing(self.tmp), "dbdir": listing(self.dbdir)}
+        if not self.s.cfg.get("flush", True):
+            # buffered inserts: rows still pending in the handle's buffer may reach the file during any later call
+            d["raw"] = self.s.file_bytes()
+        return d
 
 
 def judge_op(res, s, w, op, before, after, out, must_not_change, label, rejected=False):
@@ -69,7 +73,15 @@ def judge_op(res, s, w, op, before, after, out, must_not_change, label, rejected
         return False
     if must_not_change:
         res.count(f"bytes_unchanged_checks.{label}")
-        if before["file"] != after["file"]:
+        if "raw" in before and "raw" in after:
+            # flush_on_insert=False: earlier inserts may be flushed now - bytes may be appended, nothing else
+            res.count("bytes_only_appended_checks.buffered")
+            changed = not after["raw"].startswith(before["raw"])
+            before = dict(before, raw=len(before["raw"]))
+            after = dict(after, raw=len(after["raw"]))
+        else:
+            changed = before["file"] != after["file"]
+        if changed:
             res.violate(Violation(
                 "C15", "no-op-changed-database-file",
                 {"config": cfg, "op": opd, "class": label, "before": before["file"], "after": after["file"],
@@ -147,6 +159,8 @@ def run_history(res, cfg, scratch, rng):
                     post = [p.canon() for p in csvcodec.decode_file(s.path, None, {})]
                 except csvcodec.DecodeError as e:
                     post = [("BAD", str(e))]
+                if not cfg.get("flush", True) and out.exc is None:
+                    post = [p.canon() for p in s.model.points]  # buffered rows are not in the file yet: trust the model here
                 if out.exc is not None or post != [p.canon() for p in s.model.points]:
                     res.count("op_itself_misbehaved")
                     if any(x and x[0] == "BAD" for x in post):
@@ -546,7 +560,7 @@ def run(res, tier, seed, shard, nshards):
         "where rejected writes must raise; distinct_nontrivial = distinct (configuration, op kind, no-op?, contents) cases"
     )
     with Scratch("c15") as scratch:
-        for ci, cfg in enumerate([default_config("csv", True), default_config("csv", False)]):
+        for ci, cfg in enumerate([default_config("csv", True), default_config("csv", False), default_config("csv", True, flush=False), default_config("csv", False, flush=False)]):
             for h in range(N_HIST[tier]):
                 rng = rng_for("C15", tier, seed, shard, ci, h)
                 run_history(res, cfg, scratch, rng)
@@ -565,6 +579,7 @@ def run(res, tier, seed, shard, nshards):
     res.require("listing_checks_after_raising_call")
     res.require("vanished_file_calls")
     res.require("calls_on_closed_database")
+    res.require("bytes_only_appended_checks.buffered")
     res.require("open_read_close.as written")
     res.require("open_read_close.last row unterminated")
     res.require("io_fault_leftover_checks")
